@@ -333,6 +333,7 @@ int __wrap_epoll_wait(int ep, struct epoll_event* ev, int max, int timeout_ms) {
     if (max > 1 && fault_draw(F_EV_FEWER, 10, 1)) lim = 1;
     int n = ep_collect(ev, lim, 1);
     if (n > 0 || timeout_ms == 0 || now_ns >= deadline) return n;
+    ghost_idle_probe();
     T[me].st = ST_EPOLL;
     T[me].deadline = deadline;
     T[me].epfd = ep;
